@@ -19,26 +19,28 @@ import (
 
 // Harness describes one symbolic harness (harness/harnesses.json).
 type Harness struct {
-	Name         string   `json:"name"`     // key in vfHarnesses
-	Property     string   `json:"property"` // C01..C20
-	Pkg          string   `json:"pkg"`      // geom | rtree
-	Func         string   `json:"func"`
-	Tier         string   `json:"tier"` // quick | thorough
-	Kind         string   `json:"kind"` // property | lemma
-	Lift         string   `json:"lift,omitempty"`
-	Domain       string   `json:"domain"` // BV | FP | EXACT | mixed
-	Bounds       string   `json:"bounds"`
-	Outside      string   `json:"outside,omitempty"`
-	Reach        []string `json:"reach"`
-	Merge        []string `json:"merge,omitempty"`
-	Hunt         bool     `json:"hunt,omitempty"`
-	Unwind       int      `json:"unwind,omitempty"`
-	MaxPicks     int      `json:"max_picks,omitempty"`
-	AllocBudget  int64    `json:"alloc_budget,omitempty"`
-	MaxPaths     int      `json:"max_paths,omitempty"`
-	DeadlineSec  int      `json:"deadline_sec,omitempty"`
-	MapOrders    []string `json:"map_orders,omitempty"`
-	AbstractConv bool     `json:"abstract_conv,omitempty"`
+	Name         string            `json:"name"`     // key in vfHarnesses
+	Property     string            `json:"property"` // C01..C20
+	Pkg          string            `json:"pkg"`      // geom | rtree
+	Func         string            `json:"func"`
+	Tier         string            `json:"tier"` // quick | thorough
+	Kind         string            `json:"kind"` // property | lemma
+	Lift         string            `json:"lift,omitempty"`
+	Domain       string            `json:"domain"` // BV | FP | EXACT | mixed
+	Bounds       string            `json:"bounds"`
+	Outside      string            `json:"outside,omitempty"`
+	Reach        []string          `json:"reach"`
+	Merge        []string          `json:"merge,omitempty"`
+	Hunt         bool              `json:"hunt,omitempty"`
+	Unwind       int               `json:"unwind,omitempty"`
+	MaxPicks     int               `json:"max_picks,omitempty"`
+	AllocBudget  int64             `json:"alloc_budget,omitempty"`
+	MaxPaths     int               `json:"max_paths,omitempty"`
+	DeadlineSec  int               `json:"deadline_sec,omitempty"`
+	MapOrders    []string          `json:"map_orders,omitempty"`
+	AbstractConv bool              `json:"abstract_conv,omitempty"`
+	IntLattice   bool              `json:"int_lattice,omitempty"`
+	Stubs        map[string]string `json:"stubs,omitempty"`
 	// Seeds: concrete inputs replayed natively (expected to pass); they
 	// witness reachability of the labels for harnesses whose solver models go
 	// through uninterpreted functions and are therefore not replayable.
@@ -371,6 +373,8 @@ func cmdCheck(args []string) int {
 			spec.Cfg.MaxPicks = h.MaxPicks
 			spec.Cfg.AllocBudget = h.AllocBudget
 			spec.Cfg.AbstractConv = h.AbstractConv
+			spec.Cfg.IntLattice = h.IntLattice
+			spec.Stubs = h.Stubs
 			spec.Cfg.Merge = map[string]bool{}
 			for _, m := range h.Merge {
 				spec.Cfg.Merge[m] = true
